@@ -52,9 +52,17 @@ var redactNames = map[string]bool{
 }
 
 type auditor struct {
-	pkgAliases map[string]bool // import names of the redact-specific packages
-	own        map[string]bool // unexported names declared in the hand-written files of the package
-	ownFuncs   map[string]*ast.FuncDecl // their method declarations (for E10)
+	pkgAliases     map[string]bool          // import names of the redact-specific packages
+	own            map[string]bool          // unexported names declared in the hand-written files of the package
+	ownFuncs       map[string]*ast.FuncDecl // their method declarations (for E10)
+	boundRestorers map[string]bool          // locals holding the result of a start* helper
+	inlineOwn      bool                     // second reading: own helper statements read in place instead of erased
+}
+
+// returnsOwnStruct: the own method has exactly one result (the restorer).
+func (a *auditor) returnsOwnStruct(name string) bool {
+	fd := a.ownFuncs[name]
+	return fd != nil && fd.Type.Results != nil && len(fd.Type.Results.List) == 1
 }
 
 // printArgWrappers: unexported methods of the hand-written files that take
@@ -112,6 +120,118 @@ func ownMethods(dir string) map[string]*ast.FuncDecl {
 		}
 	}
 	notePrintArgWrappers(out)
+	return out
+}
+
+// inlineOwnStmts applies E10 at statement level: `recv.h(ident...)` as a
+// statement, h an unexported no-result method of the hand-written files whose
+// body has no return, stands for that body (receiver and parameters renamed).
+// Used for the second reading of a function (see auditFuncs): the first
+// reading erases such calls altogether.
+func (a *auditor) inlineOwnStmts(list []ast.Stmt, depth int) []ast.Stmt {
+	if a.ownFuncs == nil || depth > 2 {
+		return list
+	}
+	var out []ast.Stmt
+	for _, st := range list {
+		switch x := st.(type) {
+		case *ast.IfStmt:
+			x.Body.List = a.inlineOwnStmts(x.Body.List, depth)
+			if e, ok := x.Else.(*ast.BlockStmt); ok {
+				e.List = a.inlineOwnStmts(e.List, depth)
+			}
+		case *ast.BlockStmt:
+			x.List = a.inlineOwnStmts(x.List, depth)
+		case *ast.ForStmt:
+			x.Body.List = a.inlineOwnStmts(x.Body.List, depth)
+		case *ast.RangeStmt:
+			x.Body.List = a.inlineOwnStmts(x.Body.List, depth)
+		case *ast.SwitchStmt:
+			for _, c := range x.Body.List {
+				cc := c.(*ast.CaseClause)
+				cc.Body = a.inlineOwnStmts(cc.Body, depth)
+			}
+		case *ast.TypeSwitchStmt:
+			for _, c := range x.Body.List {
+				cc := c.(*ast.CaseClause)
+				cc.Body = a.inlineOwnStmts(cc.Body, depth)
+			}
+		}
+		es, ok := st.(*ast.ExprStmt)
+		if !ok {
+			out = append(out, st)
+			continue
+		}
+		call, ok := es.X.(*ast.CallExpr)
+		if !ok {
+			out = append(out, st)
+			continue
+		}
+		sel, ok := call.Fun.(*ast.SelectorExpr)
+		if !ok {
+			out = append(out, st)
+			continue
+		}
+		recvID, ok := sel.X.(*ast.Ident)
+		h := a.ownFuncs[sel.Sel.Name]
+		if !ok || h == nil || h.Type.Results != nil || len(h.Recv.List) != 1 || len(h.Recv.List[0].Names) != 1 || redactOnlyHelpers[sel.Sel.Name] {
+			out = append(out, st)
+			continue
+		}
+		hasRet := false
+		ast.Inspect(h.Body, func(n ast.Node) bool {
+			if _, ok := n.(*ast.ReturnStmt); ok {
+				hasRet = true
+			}
+			return true
+		})
+		var params []string
+		for _, f := range h.Type.Params.List {
+			for _, n := range f.Names {
+				params = append(params, n.Name)
+			}
+		}
+		if hasRet || len(params) != len(call.Args) {
+			out = append(out, st)
+			continue
+		}
+		ren := map[string]string{h.Recv.List[0].Names[0].Name: recvID.Name}
+		okArgs := true
+		for i, arg := range call.Args {
+			id, ok := arg.(*ast.Ident)
+			if !ok {
+				okArgs = false
+				break
+			}
+			ren[params[i]] = id.Name
+		}
+		if !okArgs {
+			out = append(out, st)
+			continue
+		}
+		var buf bytes.Buffer
+		if err := printer.Fprint(&buf, token.NewFileSet(), h.Body); err != nil {
+			out = append(out, st)
+			continue
+		}
+		expr, err := parser.ParseExpr("func()" + buf.String())
+		if err != nil {
+			out = append(out, st)
+			continue
+		}
+		body := expr.(*ast.FuncLit).Body
+		ast.Inspect(body, func(n ast.Node) bool {
+			if id, ok := n.(*ast.Ident); ok {
+				if r, ok := ren[id.Name]; ok {
+					id.Name = r
+				}
+			}
+			return true
+		})
+		// the inlined body keeps its own scope for deferred calls: wrap it as
+		// the immediately invoked closure form E4 knows
+		out = append(out, a.inlineOwnStmts(body.List, depth+1)...)
+	}
 	return out
 }
 
@@ -297,6 +417,42 @@ func (a *auditor) eraseStmts(list []ast.Stmt) []ast.Stmt {
 		case *ast.DeferStmt:
 			if a.isStartRestore(x.Call) {
 				continue
+			}
+			// E1 with the restorer bound to a local first:
+			// r := recv.start*(); defer r.restore()
+			if sel, ok := x.Call.Fun.(*ast.SelectorExpr); ok && len(x.Call.Args) == 0 {
+				if id, ok := sel.X.(*ast.Ident); ok && a.boundRestorers[id.Name] {
+					continue
+				}
+			}
+		case *ast.AssignStmt:
+			// E2 for results: `a, b := ownFunction(...)` (classification
+			// computed by hand-written code)
+			if len(x.Rhs) == 1 && len(x.Lhs) > 1 {
+				if call, ok := x.Rhs[0].(*ast.CallExpr); ok {
+					name := ""
+					switch f := call.Fun.(type) {
+					case *ast.Ident:
+						name = f.Name
+					case *ast.SelectorExpr:
+						name = f.Sel.Name
+					}
+					if a.own[name] {
+						continue
+					}
+				}
+			}
+			if x.Tok == token.DEFINE && len(x.Lhs) == 1 && len(x.Rhs) == 1 {
+				if id, ok := x.Lhs[0].(*ast.Ident); ok {
+					if call, ok := x.Rhs[0].(*ast.CallExpr); ok {
+						if sel, ok := call.Fun.(*ast.SelectorExpr); ok && (strings.HasPrefix(sel.Sel.Name, "start") || a.own[sel.Sel.Name]) && a.returnsOwnStruct(sel.Sel.Name) {
+							if a.boundRestorers == nil {
+								a.boundRestorers = map[string]bool{}
+							}
+							a.boundRestorers[id.Name] = true
+						}
+					}
+				}
 			}
 		case *ast.ExprStmt:
 			if redactOnlyHelpers[callName(x.X)] {
@@ -500,6 +656,16 @@ func inlineAdjacent(body *ast.BlockStmt) {
 	count := func(n ast.Node, name string) int {
 		k := 0
 		ast.Inspect(n, func(x ast.Node) bool {
+			if sel, ok := x.(*ast.SelectorExpr); ok {
+				// the selected field or method is not a use of the variable
+				ast.Inspect(sel.X, func(y ast.Node) bool {
+					if id, ok := y.(*ast.Ident); ok && id.Name == name {
+						k++
+					}
+					return true
+				})
+				return false
+			}
 			if id, ok := x.(*ast.Ident); ok && id.Name == name {
 				k++
 			}
@@ -808,6 +974,9 @@ func (a *auditor) auditFuncs(name, src, side string) (map[string][]string, error
 		fd.Doc = nil
 		if side == "fork" {
 			fd.Body.List = a.inlineOwnReturn(fd.Body.List)
+			if a.inlineOwn {
+				fd.Body.List = a.inlineOwnStmts(fd.Body.List, 0)
+			}
 			fd.Body.List = a.eraseStmts(fd.Body.List)
 			for k := 0; k < 3; k++ {
 				dropUnused(fd.Body)
@@ -856,6 +1025,11 @@ func ruleC04a3(c *Ctx) []*report.Result {
 		}
 		a := &auditor{own: own, ownFuncs: ownMethods(filepath.Join(c.P.Dir, "internal/rfmt"))}
 		fork, err1 := a.auditFuncs(f, string(cur), "fork")
+		// second reading of the fork: statements that only call an unexported
+		// helper of the hand-written files are read in place instead of being
+		// erased (a piece of fmt's own code moved into a helper)
+		a2 := &auditor{own: own, ownFuncs: a.ownFuncs, inlineOwn: true}
+		fork2, _ := a2.auditFuncs(f, string(cur), "fork")
 		if err1 != nil {
 			r.Undecide(fmt.Sprintf("cannot parse %s: %v", f, err1))
 			continue
@@ -884,6 +1058,12 @@ func ruleC04a3(c *Ctx) []*report.Result {
 					continue
 				}
 				d := lineDiff(orig[k], fk)
+				if len(d) != 0 && fork2 != nil {
+					if d2 := lineDiff(orig[k], fork2[k]); len(d2) == 0 {
+						d = nil
+						fork[k] = fork2[k]
+					}
+				}
 				if len(d) == 0 {
 					r.Ok(k + ": identical to the import base after erasure")
 				} else {
@@ -895,7 +1075,7 @@ func ruleC04a3(c *Ctx) []*report.Result {
 			r.Floor -= map[string]int{"print.go": 42, "format.go": 24}[f] // the obligations of (i) for this file are not stated
 		}
 		// (ii) against the reference fmt, without the recorded patch
-		c.auditAgainstReference(r, a, f, fork, nil)
+		c.auditAgainstReference(r, a, f, fork, nil, nil, fork2)
 	}
 	return []*report.Result{r}
 }
@@ -909,7 +1089,7 @@ const absentInBase = "<not in the import base>"
 // the one recorded in evolution_mapped.json for that reference. With gen
 // non-nil nothing is reported and the table is filled instead (from the
 // reconstructed import base, which is what the fork must reduce to).
-func (c *Ctx) auditAgainstReference(r *report.Result, a *auditor, f string, fork map[string][]string, gen map[string]mappedEvolution, only ...func(string) bool) {
+func (c *Ctx) auditAgainstReference(r *report.Result, a *auditor, f string, fork map[string][]string, gen map[string]mappedEvolution, only func(string) bool, alts ...map[string][]string) {
 	refs, _ := filepath.Glob(filepath.Join(c.oracleDir(), "go*"))
 	sort.Strings(refs)
 	type refData struct {
@@ -984,7 +1164,7 @@ func (c *Ctx) auditAgainstReference(r *report.Result, a *auditor, f string, fork
 		if _, skip := auditSkip[k]; skip {
 			continue
 		}
-		if len(only) > 0 && !only[0](k) {
+		if only != nil && !only(k) {
 			continue
 		}
 		construct := "rfmt " + f + " / " + k + " vs reference"
@@ -1008,6 +1188,16 @@ func (c *Ctx) auditAgainstReference(r *report.Result, a *auditor, f string, fork
 			d := lineDiff(fk, up)
 			if equalStrings(d, rec) || (len(d) == 0 && len(rec) == 0) {
 				okAny = true
+				break
+			}
+			for _, alt := range alts {
+				if ak, ok := alt[k]; ok {
+					if d2 := lineDiff(ak, up); equalStrings(d2, rec) || (len(d2) == 0 && len(rec) == 0) {
+						okAny = true
+					}
+				}
+			}
+			if okAny {
 				break
 			}
 			if why == "" || len(d) < 8 {
